@@ -324,6 +324,17 @@ def op_get_opcode_module(vt, variant=None):
     return run
 
 
+def op_get_opcode_module_raw(vinfo, variant):
+    """the version argument exactly as given (any length, any release level)"""
+    def run():
+        from xdis.op_imports import get_opcode_module
+
+        opc = get_opcode_module(vinfo) if variant is None else get_opcode_module(vinfo, variant)
+        return [opc.__name__, _table_digest(opc)]
+
+    return run
+
+
 def _sample_fn(a, b=2):
     x = [i for i in range(a) if i != b]
     try:
@@ -338,7 +349,7 @@ def op_std_api(vt, variant=None):
 
         api = make_std_api(vt, variant) if variant else make_std_api(vt)
         res = [sorted(api.opmap.items()), list(api.opname), sorted(api.hasconst), api.HAVE_ARGUMENT]
-        if vt == sys.version_info[:2]:
+        if tuple(vt[:2]) == sys.version_info[:2] and len(vt) == 2:
             res.append([[i.opname, i.arg, mask(repr(i.argval))[:40], i.offset, i.starts_line, bool(i.is_jump_target)] for i in api.get_instructions(_sample_fn)])
             res.append(sorted(api.findlabels(_sample_fn.__code__.co_code)))
         return digest(res)
@@ -491,6 +502,15 @@ def build_ops(plan, workdir):
         ops.append(("get_opcode_module:%d.%dpypy" % vt, op_get_opcode_module(vt, "pypy")))
         ops.append(("make_std_api:%d.%dpypy" % vt, op_std_api(vt, "pypy")))
     ops.append(("make_std_api:3.8", op_std_api((3, 8))))
+    # version arguments that are not rows of xdis's tables: a patch level it has never heard of (resolved by falling back
+    # to major.minor - whatever that fallback records must not leak into later calls), for both variants, both getters
+    for vt3 in ((3, 10, 19), (2, 7, 99)):
+        tag = "%d.%d.%d" % vt3
+        ops.append(("get_opcode_module:%s" % tag, op_get_opcode_module_raw(vt3, None)))
+        ops.append(("get_opcode_module:%spypy" % tag, op_get_opcode_module_raw(vt3, "pypy")))
+        ops.append(("make_std_api:%s" % tag, op_std_api(vt3)))
+        ops.append(("make_std_api:%spypy" % tag, op_std_api(vt3, "pypy")))
+    ops.append(("get_opcode_module:3.12.0rc", op_get_opcode_module_raw((3, 12, 0, "candidate", 1), None)))
     for vt in ((2, 7), (3, 4), (3, 7), (3, 11), sys.version_info[:2], (3, 13)):
         ops.append(("make_std_api:%d.%d" % tuple(vt), op_std_api(tuple(vt))))
     for w in ("tuple", "bigint", "text"):
